@@ -52,8 +52,11 @@ def _paths(expr: ast.AST, bound: Set[str]) -> Set[Path]:
             b2 = set(b)
             comp_vars = {}
             for g in n.generators:
-                visit(g.iter, b2)
                 it_chain = chain_quiet(g.iter)
+                if not (isinstance(g.iter, (ast.Name, ast.Attribute)) and it_chain is not None):
+                    visit(g.iter, b2)  # e.g. zip(a, b), d.items(): the arguments are read as a whole
+                    if isinstance(g.iter, ast.Call) and isinstance(g.iter.func, ast.Attribute) and g.iter.func.attr in ("items", "keys", "values"):
+                        it_chain = chain_quiet(g.iter.func.value)
                 for t in ast.walk(g.target):
                     if isinstance(t, ast.Name):
                         comp_vars[t.id] = it_chain
